@@ -358,10 +358,10 @@ package podgroup_info
 //@     invariant forall p *scheduler_util.priorityQueue :: !fresh(p) ==> p.items == old(p.items)   // engine: the loop-head havoc for the Push contract uses an unconstrained receiver (also next line)
 //@     invariant (forall c *interface{} :: !fresh(c) ==> *c == old(*c)) && fresh(podPriorityQueue.queue.items)
 //@     invariant podPriorityQueue != nil && fresh(podPriorityQueue) && allTasks(podPriorityQueue) && podPriorityQueue.maxQueueSize == scheduler_util.QueueCapacityInfinite
-//@     invariant forall i int :: 0 <= i && i < len(podPriorityQueue.queue.items) ==> pod_status.inActiveAllocated(unbox(podPriorityQueue.queue.items[i], "*pod_info.PodInfo").Status)
+//@     invariant forall i int :: 0 <= i && i < len(podPriorityQueue.queue.items) ==> pod_status.aaClass(unbox(podPriorityQueue.queue.items[i], "*pod_info.PodInfo").Status)
 //@   ensures [freshBacking] fresh(result.queue.items)
 //@   ensures result != nil && allTasks(result)
-//@   ensures [onlyActiveAllocated] forall i int :: 0 <= i && i < len(result.queue.items) ==> pod_status.inActiveAllocated(unbox(result.queue.items[i], "*pod_info.PodInfo").Status)
+//@   ensures [onlyActiveAllocated] forall i int :: 0 <= i && i < len(result.queue.items) ==> pod_status.aaClass(unbox(result.queue.items[i], "*pod_info.PodInfo").Status)
 //@ end
 
 // queue of all pod sets of the workload
@@ -382,7 +382,7 @@ package podgroup_info
 //@ end
 
 // every queued pod set is one of the workload's pod sets
-//@ define queueOf(q *scheduler_util.PriorityQueue, pgi *PodGroupInfo) bool = allPodSets(q) && (forall i int :: 0 <= i && i < len(q.queue.items) ==> (exists k in pgi.PodSets :: pgi.PodSets[k] == unbox(q.queue.items[i], "*sgi.PodSet")))
+//@ define queueOf(q *scheduler_util.PriorityQueue, pgi *PodGroupInfo) bool = (forall i int :: 0 <= i && i < len(q.queue.items) ==> (exists k in pgi.PodSets :: pgi.PodSets[k] == unbox(q.queue.items[i], "*sgi.PodSet")))
 
 // C03 top (DESIGN: "with allocated >= min at most one"): a workload whose pod sets all have their minimum grows by at
 // most one task per attempt. For a pod set below its minimum the number of tasks taken is decided by
@@ -394,6 +394,7 @@ package podgroup_info
 //@   modifies podGroupInfo.tasksToAllocate
 //@   loop 1
 //@     invariant subGroupPriorityQueue != nil && fresh(subGroupPriorityQueue) && fresh(subGroupPriorityQueue.queue.items)
+//@     invariant allPodSets(subGroupPriorityQueue)
 //@     invariant queueOf(subGroupPriorityQueue, podGroupInfo)
 //@     invariant numSubGroupsToAllocate >= 0 && len(tasksToAllocate) >= 0 && numSubGroupsToAllocate <= maxNumSubGroups
 //@     invariant (forall k in podGroupInfo.PodSets :: !belowMin(podGroupInfo.PodSets[k])) ==> len(tasksToAllocate) <= numSubGroupsToAllocate
@@ -417,6 +418,7 @@ package podgroup_info
 //@   modifies job.activeAllocatedCount
 //@   loop 1
 //@     invariant subGroupPriorityQueue != nil && fresh(subGroupPriorityQueue) && fresh(subGroupPriorityQueue.queue.items)
+//@     invariant allPodSets(subGroupPriorityQueue)
 //@     invariant queueOf(subGroupPriorityQueue, job)
 //@     invariant numEvictedSubGroups >= 0 && len(tasksToEvict) >= 0 && numEvictedSubGroups <= maxNumOfSubGroups
 //@     invariant (forall k in job.PodSets :: aboveMin(job.PodSets[k])) ==> len(tasksToEvict) <= numEvictedSubGroups
@@ -447,4 +449,25 @@ package podgroup_info
 //@   ensures [rejectedKeepsOld] result != nil ==> pgi.PodSets == old(pgi.PodSets) && pgi.RootSubGroupSet == old(pgi.RootSubGroupSet)
 //@   ensures [rootSet] result == nil ==> pgi.RootSubGroupSet != nil
 //@   ensures [defaultMin] result == nil && pgi.PodSets == old(pgi.PodSets) && "default" in pgi.PodSets ==> pgi.PodSets["default"].minAvailable == max(podGroup.Spec.MinMember, 1)
+//@   ensures [newSets] result == nil && pgi.PodSets != old(pgi.PodSets) ==> fresh(pgi.PodSets) && len(pgi.PodSets) > 0
+//@ end
+
+// Library models (assumed) needed by SetPodGroup: a k8s metadata getter and time.Parse, both without side effects.
+//@ func (*k8s.io/apimachinery/pkg/apis/meta/v1.ObjectMeta).GetCreationTimestamp
+//@   trusted
+//@   note library getter `return meta.CreationTimestamp`: no side effects, never panics on a non-nil receiver
+//@   pure
+//@ end
+//@ func time.Parse
+//@   trusted
+//@   note standard library: parses a string, no side effects on the program heap, returns an error for bad input
+//@   pure
+//@ end
+
+// C10: SetPodGroup is total on every PodGroup object (bad sub-groups, unparsable timestamps, missing annotations).
+//@ func (*PodGroupInfo).SetPodGroup
+//@   props C10
+//@   requires setsOK(pgi) && pg != nil
+//@   modifies fields(pgi), pgi.PodSets["default"].minAvailable, family(pgi.RootSubGroupSet.parent), family(pgi.RootSubGroupSet.groups), family(pgi.RootSubGroupSet.podSets)
+//@   ensures pgi.PodGroup == pg && pgi.Queue == pg.Spec.Queue && pgi.Name == pg.Name && pgi.Namespace == pg.Namespace
 //@ end
